@@ -1,10 +1,11 @@
 package h
 
 import (
-	"github.com/truora/minidyn/interpreter"
 	"context"
 	"errors"
+	"github.com/truora/minidyn/interpreter"
 	"sort"
+	"strings"
 
 	"github.com/aws/aws-sdk-go-v2/aws"
 	"github.com/aws/aws-sdk-go-v2/service/dynamodb"
@@ -247,6 +248,18 @@ func (b *V2) Put(c, t string, item Item, w WriteArgs) *Resp {
 func (b *V2) Get(c, t string, key Item) *Resp {
 	return guard(func() *Resp {
 		out, err := b.cs[c].GetItem(bg, &dynamodb.GetItemInput{TableName: aws.String(t), Key: ItemToV2(key)})
+		r := b.errResp(err)
+		if err == nil && out != nil {
+			r.Item = optOf(ItemFromV2(out.Item))
+		}
+		return r
+	})
+}
+
+// GetProj issues GetItem with a ProjectionExpression.
+func (b *V2) GetProj(c, t string, key Item, proj []string) *Resp {
+	return guard(func() *Resp {
+		out, err := b.cs[c].GetItem(bg, &dynamodb.GetItemInput{TableName: aws.String(t), Key: ItemToV2(key), ProjectionExpression: aws.String(strings.Join(proj, ", "))})
 		r := b.errResp(err)
 		if err == nil && out != nil {
 			r.Item = optOf(ItemFromV2(out.Item))
